@@ -139,8 +139,8 @@ class Worker:
             files = [('in.mamba', files)]
         return self.req('\t'.join(['stages', '1' if annotate else '0'] + self._files(files)))
 
-    def lex(self, src):
-        return self.req('lex\t' + hx(src))
+    def lex(self, src, budget=0):
+        return self.req('lex\t' + hx(src) + (f'\t{budget}' if budget else ''))
 
     def repeat(self, files, annotate=True, k=8, t=0, pollute=()):
         if isinstance(files, str):
